@@ -198,3 +198,174 @@ Proof.
   gen_equiv gen_checked_elements_eq by
     (intros; unfold gen_checked_elements; apply gen_checked_elements_from).
 Qed.
+
+(* ==== second extension wave: iterator chains, from_fn frames ==== *)
+
+(* Iterator::product over usize = left fold of the machine multiplication = Fallible.prod_legacy *)
+Lemma gen_fold_mul_prod_legacy : forall md l acc, gen_fold (u_mul md) acc l = prod_legacy md l acc.
+Proof.
+  intros md. induction l as [|x l IH]; intros acc; cbn [gen_fold prod_legacy]; [reflexivity|].
+  destruct (u_mul md acc x); cbn [obind]; auto.
+Qed.
+
+Lemma gen_product_eq : forall md l, gen_product md l = prod_legacy md l 1.
+Proof. intros. unfold gen_product. apply gen_fold_mul_prod_legacy. Qed.
+
+(* ---- src/tensors/dimensions.rs: elements = shape.iter().map(|d| d.1).product() ---- *)
+Lemma gen_elements_eq : forall md (sh : list (N * N)),
+  gen_elements md sh = prod_legacy md (map snd sh) 1.
+Proof.
+  gen_equiv gen_elements_eq by
+    (intros; unfold gen_elements; rewrite gen_product_eq; reflexivity).
+Qed.
+
+(* ---- src/tensors/mod.rs: compute_strides, one element and the from_fn frame ---- *)
+Definition strides_elem_m (md : mode) (lens : list N) (d : N) : outcome N :=
+  obind (u_add md d 1) (fun d1 => prod_legacy md (skipn (N.to_nat d1) lens) 1).
+
+Lemma map_skipn' {A B} (f : A -> B) : forall n l, map f (skipn n l) = skipn n (map f l).
+Proof. induction n as [|n IH]; intros [|x l]; cbn [skipn map]; auto. Qed.
+
+Lemma gen_compute_strides_elem_eq : forall md (sh : list (N * N)) d,
+  gen_compute_strides_elem md sh d = strides_elem_m md (map snd sh) d.
+Proof.
+  gen_equiv gen_compute_strides_elem_eq by
+    (intros; unfold gen_compute_strides_elem, strides_elem_m;
+     destruct (u_add md d 1); cbn [obind]; try reflexivity;
+     rewrite gen_product_eq, <- map_skipn'; reflexivity).
+Qed.
+
+Lemma gen_map_m_ext {X Y} (f g : X -> outcome Y) : forall l,
+  (forall x, In x l -> f x = g x) -> gen_map_m f l = gen_map_m g l.
+Proof.
+  induction l as [|x l IH]; intros H; cbn [gen_map_m]; [reflexivity|].
+  rewrite (H x (or_introl eq_refl)), IH; [reflexivity|]. intros y Hy. apply H. right. exact Hy.
+Qed.
+
+Lemma gen_map_m_ok {X Y} (f : X -> outcome Y) (g : X -> Y) : forall l,
+  (forall x, In x l -> f x = Ok (g x)) -> gen_map_m f l = Ok (map g l).
+Proof.
+  induction l as [|x l IH]; intros H; cbn [gen_map_m map]; [reflexivity|].
+  rewrite (H x (or_introl eq_refl)). cbn [obind]. rewrite IH; [reflexivity|].
+  intros y Hy. apply H. right. exact Hy.
+Qed.
+
+Lemma gen_range_0 : forall n, gen_range 0 (N.of_nat n) = map N.of_nat (seq 0 n).
+Proof.
+  intros. unfold gen_range. rewrite N.sub_0_r, Nat2N.id. apply map_ext. intros. apply N.add_0_l.
+Qed.
+
+Lemma gen_compute_strides_eq : forall md (sh : list (N * N)),
+  gen_compute_strides md sh =
+  gen_map_m (strides_elem_m md (map snd sh)) (map N.of_nat (seq 0 (length sh))).
+Proof.
+  gen_equiv gen_compute_strides_eq by
+    (intros; unfold gen_compute_strides; rewrite gen_range_0; apply gen_map_m_ext;
+     intros; apply gen_compute_strides_elem_eq).
+Qed.
+
+(* ---- src/tensors/views/reverse.rs: the whole of reverse_indexes (from_fn frame) ---- *)
+Fixpoint zip3r (idx : list N) (sh : list (N * N)) (rv : list bool) : list (N * (N * N) * bool) :=
+  match idx, sh, rv with
+  | i :: idx', d :: sh', b :: rv' => (i, d, b) :: zip3r idx' sh' rv'
+  | _, _, _ => []
+  end.
+
+Definition rev_elem_m (md : mode) (x : N * (N * N) * bool) : outcome N :=
+  let '(i, d, b) := x in if (b : bool) then rev_index md (snd d) i else Ok i.
+
+Lemma gen_reverse_indexes_eq : forall md xs,
+  gen_reverse_indexes md xs = gen_map_m (rev_elem_m md) xs.
+Proof.
+  gen_equiv gen_reverse_indexes_eq by
+    (intros; unfold gen_reverse_indexes; apply gen_map_m_ext; intros [[i [nm len]] b] _;
+     unfold rev_elem_m; cbn [snd];
+     destruct b; [apply (proj1 (gen_reverse_indexes_elem_eq md i nm len))
+                 | apply (proj2 (gen_reverse_indexes_elem_eq md i nm len))]).
+Qed.
+
+(* ---- src/tensors/mod.rs: get_index_direct_unchecked (no bounds test) ---- *)
+Fixpoint gidu_m (md : mode) (idx st : list N) (acc : N) : outcome N :=
+  match idx, st with
+  | i :: idx', s :: st' => obind (u_mul md i s) (fun p => obind (u_add md acc p) (fun a => gidu_m md idx' st' a))
+  | _, _ => Ok acc
+  end.
+
+Lemma gen_get_index_direct_unchecked_body_eq : forall md acc i s,
+  gen_get_index_direct_unchecked_body md acc i s =
+  obind (u_mul md i s) (fun p => omap Next (u_add md acc p)).
+Proof.
+  gen_equiv gen_get_index_direct_unchecked_body_eq by
+    (intros; unfold gen_get_index_direct_unchecked_body; case_all; reflexivity).
+Qed.
+
+Lemma gen_get_index_direct_unchecked_eq : forall md idx st,
+  gen_get_index_direct_unchecked md (combine idx st) = gidu_m md idx st 0.
+Proof.
+  gen_equiv gen_get_index_direct_unchecked_eq by
+    (intros md idx st; unfold gen_get_index_direct_unchecked; generalize 0;
+     revert st; induction idx as [|i idx IH]; intros [|s st] acc; cbn [combine gen_for gidu_m]; try reflexivity;
+     rewrite gen_get_index_direct_unchecked_body_eq;
+     destruct (u_mul md i s); cbn [obind omap]; try reflexivity;
+     destruct (u_add md acc a); cbn [obind omap]; try reflexivity; apply IH).
+Qed.
+
+(* ---- src/tensors/views/ranges.rs: the loops that write arrays (clip_range_shape,
+        clip_masked_shape): one iteration = (new (name, length) of the shape, clipped range) ---- *)
+Lemma gen_clip_range_shape_body_eq : forall md nm len r,
+  gen_clip_range_shape_body md (nm, len) r = omap (fun c => ((nm, r_length c), c)) (ir_clip r len).
+Proof.
+  gen_equiv gen_clip_range_shape_body_eq by
+    (intros; unfold gen_clip_range_shape_body; cbn [fst snd]; rewrite gen_IndexRange_clip_eq; reflexivity).
+Qed.
+
+Lemma gen_clip_masked_shape_body_eq : forall md nm len r,
+  gen_clip_masked_shape_body md (nm, len) r =
+  obind (ir_clip r len) (fun c => omap (fun l => ((nm, l), c)) (u_sub md len (r_length c))).
+Proof.
+  gen_equiv gen_clip_masked_shape_body_eq by
+    (intros; unfold gen_clip_masked_shape_body; cbn [fst snd]; rewrite gen_IndexRange_clip_eq;
+     unfold ir_clip; cbn [obind]; case_all; reflexivity).
+Qed.
+
+Lemma gen_clip_range_shape_eq : forall md xs,
+  gen_clip_range_shape md xs =
+  gen_map_m (fun x => omap (fun c => ((fst (fst x), r_length c), c)) (ir_clip (snd x) (snd (fst x)))) xs.
+Proof.
+  gen_equiv gen_clip_range_shape_eq by
+    (intros; unfold gen_clip_range_shape; apply gen_map_m_ext; intros [[nm len] r] _;
+     apply gen_clip_range_shape_body_eq).
+Qed.
+
+Lemma gen_clip_masked_shape_eq : forall md xs,
+  gen_clip_masked_shape md xs =
+  gen_map_m (fun x => obind (ir_clip (snd x) (snd (fst x)))
+                            (fun c => omap (fun l => ((fst (fst x), l), c)) (u_sub md (snd (fst x)) (r_length c)))) xs.
+Proof.
+  gen_equiv gen_clip_masked_shape_eq by
+    (intros; unfold gen_clip_masked_shape; apply gen_map_m_ext; intros [[nm len] r] _;
+     apply gen_clip_masked_shape_body_eq).
+Qed.
+
+(* ---- src/tensors/indexing.rs: size_hint of ShapeIterator (calls elements, compute_strides,
+        get_index_direct_unchecked: the three translated functions above, composed) ---- *)
+Lemma gen_size_hint_eq : forall md fin idx (sh : list (N * N)),
+  gen_size_hint md fin idx sh =
+  if (fin : bool) then Ok (0, Some 0)
+  else if 0 <? N.of_nat (length idx) then
+    obind (prod_legacy md (map snd sh) 1) (fun total =>
+    obind (gen_map_m (strides_elem_m md (map snd sh)) (map N.of_nat (seq 0 (length sh)))) (fun st =>
+    obind (gidu_m md idx st 0) (fun seen =>
+    omap (fun r => (r, Some r)) (u_sub md total seen))))
+  else Ok (1, Some 1).
+Proof.
+  gen_equiv gen_size_hint_eq by
+    (intros; unfold gen_size_hint; destruct fin; [reflexivity|];
+     destruct (0 <? N.of_nat (length idx)); [|reflexivity];
+     rewrite gen_elements_eq; destruct (prod_legacy md (map snd sh) 1); cbn [obind]; try reflexivity;
+     rewrite gen_compute_strides_eq;
+     match goal with |- context [gen_map_m ?f ?l] => destruct (gen_map_m f l) end; cbn [obind]; try reflexivity;
+     rewrite gen_get_index_direct_unchecked_eq;
+     match goal with |- context [gidu_m ?a ?b ?c ?d] => destruct (gidu_m a b c d) end; cbn [obind]; try reflexivity;
+     match goal with |- context [u_sub ?a ?b ?c] => destruct (u_sub a b c) end; reflexivity).
+Qed.
